@@ -29,14 +29,15 @@ import (
 // to write a table with no data.
 // This changes the checksum in the "head" table in place.
 func Write(w io.Writer, scalerType uint32, tables map[string][]byte) (int64, error) {
-	numTables := len(tables)
-
-	tableNames := make([]string, 0, numTables)
+	tableNames := make([]string, 0, len(tables))
 	for name, data := range tables {
 		if data != nil && len(name) == 4 {
 			tableNames = append(tableNames, name)
 		}
 	}
+	// only the tables which are written count: skipped entries must
+	// not appear in the directory
+	numTables := len(tableNames)
 
 	// sort the table names in the recommended order
 	sort.Slice(tableNames, func(i, j int) bool {
@@ -49,13 +50,17 @@ func Write(w io.Writer, scalerType uint32, tables map[string][]byte) (int64, err
 	})
 
 	// prepare the header
-	entrySelector := bits.Len(uint(numTables)) - 1
+	var searchRange, entrySelector int
+	if numTables > 0 {
+		entrySelector = bits.Len(uint(numTables)) - 1
+		searchRange = 1 << (entrySelector + 4)
+	}
 	header := &offsets{
 		ScalerType:    scalerType,
 		NumTables:     uint16(numTables),
-		SearchRange:   1 << (entrySelector + 4),
+		SearchRange:   uint16(searchRange),
 		EntrySelector: uint16(entrySelector),
-		RangeShift:    uint16(16 * (numTables - 1<<entrySelector)),
+		RangeShift:    uint16(16*numTables - searchRange),
 	}
 
 	// temporarily clear the checksum in the "head" table
